@@ -36,8 +36,10 @@ def run(chk):
         chk.rule(rid, txt)
     normaliser(chk, w)
     token_stream(chk, w)
-    letters(chk, w)
-    copy_sites(chk, w)
+    # only the adapter's own table belongs to this property (predict/evaluate: C20, the KyTea converter: C17)
+    with chk.only(keys=lambda k: not k.startswith("R16.3:") or k.startswith("R16.3:tantivy")):
+        letters(chk, w)
+    # the position-wise copy between the normalised and the original sentence is what predict / train do (C20)
 
 
 def normaliser(chk, w):
